@@ -183,12 +183,12 @@ static inline double spec_realbody_val(uint8_t ty, const uint8_t *t, uint64_t po
         uint64_t a = spec_uint_val(t, pos, n);
         if (ty == 0) return (double)a;
         if (ty == 1) return -(double)a;
-        if (ty == 2) return 1.0 / (double)a;
-        if (ty == 3) return -1.0 / (double)a;
+        if (ty == 2) return VF_FDIV(1.0, (double)a);
+        if (ty == 3) return VF_FDIV(-1.0, (double)a);
         uint8_t m = spec_grp_len(t, pos + n, len);
         uint64_t b = spec_uint_val(t, pos + n, m);
-        if (ty == 4) return (double)a / (double)b;
-        return -(double)a / (double)b;
+        if (ty == 4) return VF_FDIV((double)a, (double)b);
+        return VF_FDIV(-(double)a, (double)b);
     }
     if (ty == 6) return (double)spec_float_from_le(t, pos);
     return spec_double_from_le(t, pos);
